@@ -10,10 +10,18 @@ kernel calls on a deep copy of the base module taken before each step — three-
 decision over *all* categories by decreasing activation, map total / values
 exactly 0..n_clusters-1, returned / predicted labels in range, base weights change
 only where the upper test passed, base parameters restored after every step and call.
+
+Reset functions come in two families.  Label-keyed veto tables (a function of sample and CLUSTER label: what every
+reset function inside the library is) go through the tie above.  Category-keyed reset functions (`gen_judge`: the
+answer depends on the CATEGORY handed over — its index, its weight `w`, the match value in `cache` — so two categories
+of one cluster get different verdicts for the same sample) are oracle-only: the three-way decision is evaluated per
+visited category with the reset function's own answers (the Lean model's veto table is indexed by cluster label).
 """
 from __future__ import annotations
 
 from copy import deepcopy
+import hashlib
+import struct
 
 import numpy as np
 
@@ -22,8 +30,9 @@ from ..common import f2hex, run_driver, parse_kv, parse_nats, parse_optnats, vec
 from ..impl import make, Recorder, StepRec, step_table, sorted_live, quiet, exc_enum, MODES, params_tree, DualVigilanceART
 
 RULE = ("cases = (base class, base hyper-parameters, rho_lower_bound, data set, match-tracking mode, epsilon, "
-        "veto table by cluster label or none, call history fit/partial_fit/predict/re-fit); a case is non-trivial when a "
-        "step visited >= 2 categories, spawned a category, or met a veto; distinct by hash of all of these")
+        "veto table by cluster label, reset function keyed on the category (index / weight / match value) or none, call "
+        "history fit/partial_fit/predict/re-fit); a case is non-trivial when a step visited >= 2 categories, spawned a "
+        "category, met a veto, or two categories of one cluster got different verdicts; distinct by hash of all of these")
 
 SIG_F18 = "DualVigilanceART.step_fit:nonpositive-activation-not-visited"
 SIG_LOWERED = "DualVigilanceART.step_fit:reset+tracking:absorbed-below-configured-rho"
@@ -75,31 +84,81 @@ def kernel_view(cp, x, mode):
     return T, passes
 
 
-def statement_decision(T, passes, cmap, rho, lb, mode, eps, veto_row, positive_only):
+def statement_decision(T, passes, cmap, rho, lb, mode, eps, veto_row, positive_only, trace=None):
     """The statement, single pass: by decreasing activation (ties: oldest), the
     first non-vetoed category passing the upper vigilance in force absorbs, one
-    passing only the lower vigilance spawns; otherwise a fresh label."""
+    passing only the lower vigilance spawns; otherwise a fresh label.
+    `veto_row`: None, a row indexed by cluster label, or a callable (category, match value) -> vetoed?
+    (the reset function's own answer for that category).  `trace` collects (category, vetoed?) as visited."""
     order = sorted_live(T)
     if positive_only:
         order = [c for c in order if T[c] > 0]
+    if veto_row is None or callable(veto_row):
+        vetoed = veto_row
+    else:
+        vetoed = lambda c, M: veto_row[cmap[c]]          # noqa: E731
     th = rho
     for c in order:
-        if veto_row is not None and veto_row[cmap[c]]:
+        m1, M = passes(c, th)
+        v = vetoed is not None and bool(vetoed(c, M))
+        if trace is not None:
+            trace.append((c, v))
+        if v:
             # match tracking: only after a vetoed category that passed the vigilance in force
             # (BaseART's rule; DualVigilanceART since /repo 1d1ae6e, F27)
-            m1, M = passes(c, th)
             if m1:
                 th, keep = track(mode, th, M, eps)
                 if not keep:
                     break
             continue
-        m1, _ = passes(c, th)
         if m1:
             return ("a", c, th)
         m2, _ = passes(c, lb)
         if m2:
             return ("s", c, th)
     return ("n", None, th)
+
+
+# ---------------------------------------------------------------- reset functions that look at the category
+JUDGE_KINDS = ("index", "weight-extent", "weight-bytes", "match-value")
+
+
+def gen_judge(r, n, maxcat):
+    """A caller-supplied reset function whose answer depends on the category it is handed, as data:
+    index        — a veto table indexed by (sample, CATEGORY index) (the function finds the category the weight
+                   belongs to in base_module.W);
+    weight-extent— permits a category iff mean |x - w[:len(x)]| <= cap (a geometric bound on the weight handed over);
+    weight-bytes — an arbitrary fixed function of (sample number, bytes of w);
+    match-value  — an arbitrary fixed function of (sample number, cache['match_criterion'])."""
+    kind = r.choice(JUDGE_KINDS)
+    js = {"kind": kind, "salt": r.getrandbits(32), "p_permit": r.choice([0.3, 0.5, 0.5, 0.7, 0.85])}
+    if kind == "index":
+        js["veto_by_category_index"] = [[r.random() >= js["p_permit"] for _ in range(maxcat)] for _ in range(max(n, 1))]
+    if kind == "weight-extent":
+        js["cap"] = r.choice([0.0625, 0.125, 0.25, 0.375, 0.5, 0.75])
+    return js
+
+
+def _coin(js, g, payload):
+    h = hashlib.blake2b(struct.pack("<IQ", js["salt"], g) + payload, digest_size=4).digest()
+    return int.from_bytes(h, "big") / 2.0 ** 32 < js["p_permit"]
+
+
+def judge(js, g, j, x, w, label, M):
+    """the reset function's answer (True = the category may take the sample) for sample number g, category j"""
+    kind = js["kind"]
+    if kind == "index":
+        tab = js["veto_by_category_index"]
+        row = tab[g % len(tab)]
+        return not row[j % len(row)]
+    w = np.asarray(w, dtype=float).ravel()
+    if kind == "weight-extent":
+        x = np.asarray(x, dtype=float).ravel()
+        k = min(len(x), len(w))
+        return bool(float(np.mean(np.abs(x[:k] - w[:k]))) <= js["cap"])
+    if kind == "weight-bytes":
+        return _coin(js, g, w.tobytes())
+    return _coin(js, g, struct.pack("<d", float(M)))
 
 
 def split_mseq(st, has_reset):
@@ -212,12 +271,16 @@ def fixed_cases():
 def run_case(ctx, case, idx, lines, expect):
     cov = ctx.cov
     cls, mode, spec, lb, X, eps, vt = (case[k] for k in ("cls", "mode", "spec", "lb", "X", "eps", "vt"))
-    has_reset = vt is not None
+    js = case.get("judge")
+    has_reset = vt is not None or js is not None
     inv = specs.is_inverted(cls)
     rep = {"case": idx, "name": case.get("name"), "class": cls, "spec": spec, "rho_lower_bound": lb, "mode": mode,
            "eps": eps, "X": X, "veto_by_cluster_label": vt,
            "history": [(h[0], h[1] if h[0] == "pred" else [h[1], h[2]]) for h in case["hist"]]}
-    key = (cls, spec, lb, X.tolist(), mode, eps, vt, [(h[0], np.asarray(h[1]).tolist()) if h[0] == "pred" else h for h in case["hist"]])
+    if js is not None:
+        rep["reset_function_by_category"] = dict(js, doc=gen_judge.__doc__, answer="C13.judge(js, sample number, category "
+                                                 "index, x, w, cluster label, cache['match_criterion']) -> permitted?")
+    key = (cls, spec, lb, X.tolist(), mode, eps, vt if js is None else js, [(h[0], np.asarray(h[1]).tolist()) if h[0] == "pred" else h for h in case["hist"]])
     try:
         with quiet():
             base = make(spec)
@@ -254,7 +317,21 @@ def run_case(ctx, case, idx, lines, expect):
         return c
     object.__setattr__(dual, "step_fit", framed)
     reset = None
-    if has_reset:
+    if js is not None:
+        def by_category(i_, w_, c_, params, cache):
+            g = len(rec.steps) - 1
+            Wl = base.W
+            j = next((k for k, wk in enumerate(Wl) if wk is w_), None)
+            if j is None:
+                j = next((k for k, wk in enumerate(Wl) if np.array_equal(wk, w_, equal_nan=True)), None)
+            if j is None or dual.map.get(j) != c_:
+                ctx.issue("violation", "DualVigilanceART.step_fit:reset-function-not-asked-about-a-category",
+                          f"step {g}: the reset function was handed a weight that is category {j} of the base module "
+                          f"together with cluster label {c_} (map {dict(dual.map)})", dict(rep, step=g, x=np.array(i_)))
+                j = 0 if j is None else j
+            return judge(js, g, j, i_, w_, int(c_), float(cache["match_criterion"]))
+        reset = rec.reset_logger(by_category)
+    elif has_reset:
         reset = rec.reset_logger(lambda i_, w_, c_, params, cache: not vt[len(rec.steps) - 1][int(c_)])
 
     tab_steps, tab_veto, calls, exp_out = [], [], [], []
@@ -309,11 +386,13 @@ def run_case(ctx, case, idx, lines, expect):
             # ---------------- oracle, per step
             evs = []
             for st, fr in zip(rec.steps[s0:], frames[f0:]):
-                ev, nt = oracle_step(ctx, rep, cls, mode, eps, rho, lb, vt, has_reset, st, fr)
+                ev, nt = oracle_step(ctx, rep, cls, mode, eps, rho, lb, vt, has_reset, st, fr, js)
                 evs.append(ev)
                 nontrivial = nontrivial or nt
             # ---------------- oracle, per call
             oracle_call(ctx, rep, kind, dual, base, p_before, b - a)
+            if js is not None:
+                continue          # oracle-only: the model's veto table is indexed by cluster label
             # ---------------- protocol
             xs = []
             for st in rec.steps[s0:]:
@@ -336,6 +415,12 @@ def run_case(ctx, case, idx, lines, expect):
                 k=int(dual.n_clusters), cnt=[int(t) for t in base.weight_sample_counter_], nW=len(base.W),
                 n=int(dual.sample_counter_), ev=evs)))
     rec.uninstall()
+    if js is not None:
+        cov.case(key, nontrivial)
+        cov.hit("reset-by-category")
+        cov.hit("reset-by-category:" + js["kind"])
+        cov.hit("reset-by-category:mode:" + mode)
+        return
     if not calls:
         cov.case(key, False)
         return
@@ -358,7 +443,7 @@ def run_case(ctx, case, idx, lines, expect):
                     "labels": [int(t) for t in getattr(dual, "labels_", [])], "map": dict(dual.map)})
 
 
-def oracle_step(ctx, rep, cls, mode, eps, rho, lb, vt, has_reset, st, fr):
+def oracle_step(ctx, rep, cls, mode, eps, rho, lb, vt, has_reset, st, fr, js=None):
     """returns (event string of the implementation, non-trivial?)"""
     cov = ctx.cov
     cp, cmap, x, ret = fr["cp"], fr["map"], fr["x"], fr["ret"]
@@ -398,9 +483,15 @@ def oracle_step(ctx, rep, cls, mode, eps, rho, lb, vt, has_reset, st, fr):
     bumped = [c for c in range(min(len(cnt0), len(cnt1))) if cnt1[c] != cnt0[c]]
     with quiet():
         T, passes = kernel_view(cp, x, mode)
-        veto_row = vt[fr["g"]] if has_reset else None
+        if js is not None:
+            # the reset function's own answer for each category (weight and label as they were before the step)
+            def veto_row(c, M):
+                return not judge(js, fr["g"], c, x, cp.W[c], cmap[c], M)
+        else:
+            veto_row = vt[fr["g"]] if has_reset else None
+        visited = []
         want = statement_decision(T, passes, cmap, rho, lb, mode, eps, veto_row, positive_only=False)
-        pos = statement_decision(T, passes, cmap, rho, lb, mode, eps, veto_row, positive_only=True)
+        pos = statement_decision(T, passes, cmap, rho, lb, mode, eps, veto_row, positive_only=True, trace=visited)
         if len(W1) == nb + 1:
             try:
                 wn = np.array(cp.new_weight(x, cp.params), dtype=float)
@@ -409,6 +500,15 @@ def oracle_step(ctx, rep, cls, mode, eps, rho, lb, vt, has_reset, st, fr):
                               f"step {fr['g']}: appended weight differs from new_weight(x)", srep)
             except Exception:
                 pass
+    if js is not None:
+        verdicts = {}
+        for c, v in visited:
+            verdicts.setdefault(cmap[c], set()).add(v)
+        if any(len(vs) == 2 for vs in verdicts.values()):
+            nontrivial = True
+            cov.hit("reset-by-category:one-cluster-two-verdicts")
+            if pos[0] in ("a", "s") and sum(1 for c, v in visited if cmap[c] == cmap[pos[1]]) >= 2:
+                cov.hit("reset-by-category:deciding-category-not-first-of-its-cluster:" + pos[0])
     up, lo = split_mseq(st, has_reset)
     order = [c for c in sorted_live(T) if T[c] > 0]
     if len(up) >= 2:
@@ -471,7 +571,7 @@ def oracle_step(ctx, rep, cls, mode, eps, rho, lb, vt, has_reset, st, fr):
                       f"decides {fmt(want, cmap)}, the implementation did {fmt(got, cmap)} (label {ret}); "
                       f"rho_lower_bound={lb}, mode {mode}", srep)
         else:
-            ctx.issue("violation", f"DualVigilanceART.step_fit:decision:{cls}",
+            ctx.issue("violation", f"DualVigilanceART.step_fit:decision:{cls}" + (":reset-by-category" if js is not None else ""),
                       f"step {fr['g']}: statement decides {fmt(want, cmap)}, implementation did {fmt(got, cmap)} "
                       f"(T={T}, map={cmap}, mode {mode}, reset={has_reset})", srep)
     # --- the upper bound: a weight changes only on a category that passed the upper test
@@ -505,6 +605,24 @@ def oracle_step(ctx, rep, cls, mode, eps, rho, lb, vt, has_reset, st, fr):
             okl, Mv = passes(got[1], lb)
         if Mv == lb:
             cov.hit("match-equals-lower-bound")
+    # --- no model of the search at all: whoever takes the sample / hands its label on was permitted by the reset function
+    if js is not None:
+        with quiet():
+            if got[0] == "a" and got[1] is not None:
+                c = got[1]
+                Mv = passes(c, rho)[1]
+                if veto_row(c, Mv):
+                    ctx.issue("violation", "DualVigilanceART.step_fit:absorbed-by-a-category-the-reset-function-rejected",
+                              f"step {fr['g']}: category {c} (cluster {cmap[c]}) absorbed the sample although the reset "
+                              f"function ({js['kind']}) answers False for it (match value {Mv})", srep)
+            if got[0] == "s":
+                newl = map1.get(nb)
+                donors = [c for c in range(nb) if cmap[c] == newl and passes(c, lb)[0] and not veto_row(c, passes(c, lb)[1])]
+                if not donors:
+                    ctx.issue("violation", "DualVigilanceART.step_fit:spawned-under-a-cluster-with-no-permitted-category",
+                              f"step {fr['g']}: the new category got cluster label {newl}, but no category of that cluster "
+                              f"is both permitted by the reset function ({js['kind']}) and passes the lower vigilance {lb}",
+                              srep)
     ev = {"a": f"a{got[1]}", "s": f"s{got[1]}", "n": "n", "?": "?"}[got[0]]
     return ev, nontrivial
 
@@ -590,6 +708,14 @@ def run(ctx):
     for i in range(N):
         r = gen.rng_for(ctx.seed, "C13", i)
         run_case(ctx, gen_case(r, i, nmax, ctx.thorough), i, lines, expect)
+    # reset functions that look at the category they are handed (oracle-only, see the module doc-string)
+    for i in range(ctx.scale(300, 3000)):
+        r = gen.rng_for(ctx.seed, "C13-reset-by-category", i)
+        case = gen_case(r, i, nmax, ctx.thorough)
+        n = len(case["X"])
+        case["vt"] = None
+        case["judge"] = gen_judge(r, n, n + 2)
+        run_case(ctx, case, 2 * 10 ** 6 + i, lines, expect)
     outs = run_driver(lines)
     for line, out, (rep, exp_out, cls) in zip(lines, outs, expect):
         compare(ctx, rep, exp_out, out, cls, line)
